@@ -200,9 +200,12 @@ func c05Scenarios(tier string) []*world.Scenario {
 		{"get", func(k string) []byte { return world.Cmd("get", k) }, 1},
 		{"set", func(k string) []byte { return world.Cmd("SET", k, "v") }, 1},
 		{"eval", func(k string) []byte { return world.Cmd("eval", "return 1", "1", k) }, 3},
+		{"evalsha", func(k string) []byte {
+			return world.Cmd("EVALSHA", "e0e1f9fabfc9d4800c877a703b823ac0578ff8db", "1", k, "x")
+		}, 3},
 	}
 	if tier == "thorough" {
-		kinds = append(kinds, sk{"evalsha", func(k string) []byte { return world.Cmd("EVALSHA", "abc", "1", k, "x") }, 3},
+		kinds = append(kinds,
 			sk{"hset", func(k string) []byte { return world.Cmd("hset", k, "f", "v") }, 1},
 			sk{"expire", func(k string) []byte { return world.Cmd("expire", k, "10") }, 1})
 	}
